@@ -362,7 +362,7 @@ pub fn run(opts: &RndOpts, tw: &mut TraceWriter) {
         let ngen = pick(&mut r, &[1u16, 2, 3]);
         let own = Id::with(1, r.random_range(0..2), pol);
         tw.env("reset", 0, json!({"run": run, "driver": "rnd", "rseed": rseed % 1_000_000_007,
-            "forge": opts.forge, "junk": opts.junk, "ordered": opts.ordered}));
+            "forge": opts.forge, "junk": opts.junk, "ordered": opts.ordered, "dbg": cfg!(debug_assertions)}));
         let ncfg = NodeCfg { id: own, cfg, codec, handler, seed: r.random(), twin: opts.twin };
         let mut node = Node::new(0, ncfg, tw, 0);
         let mut env = Env {
